@@ -152,9 +152,30 @@ type WFault struct {
 	K    int    `json:"k"`
 	Kind string `json:"kind"`
 	N    int    `json:"n,omitempty"`
+	Err  string `json:"err,omitempty"` // which error value the destination returns: "" sentinel | eof | shortwrite | closedpipe
 }
 
 var errWrite = errors.New("verifsim: injected destination failure")
+
+// A destination may fail with any error value, including ones the library compares against on
+// the *source* side (io.EOF): a failed write is a failed write.
+func (f *WFault) err() error {
+	switch f.Err {
+	case "eof":
+		return io.EOF
+	case "shortwrite":
+		return io.ErrShortWrite
+	case "closedpipe":
+		return io.ErrClosedPipe
+	case "eagain":
+		return syscall.EAGAIN // Temporary() == true, Timeout() == true
+	case "deadline":
+		return os.ErrDeadlineExceeded // Timeout() == true, Temporary() == true
+	}
+	return errWrite
+}
+
+var writeErrKinds = []string{"", "", "eof", "shortwrite", "closedpipe", "eagain", "deadline"}
 
 type writerCore struct {
 	fault *WFault
@@ -189,13 +210,13 @@ func (c *writerCore) write(b []byte, viaString bool) (int, error) {
 				c.FailedAt = idx
 				c.FailedPayload = append([]byte{}, b...)
 			}
-			return 0, errWrite
+			return 0, f.err()
 		case idx == f.K:
 			c.FailedAt = idx
 			c.FailedPayload = append([]byte{}, b...)
 			switch f.Kind {
 			case "once":
-				return 0, errWrite
+				return 0, f.err()
 			case "short":
 				n := f.N
 				if n >= len(b) {
@@ -205,10 +226,10 @@ func (c *writerCore) write(b []byte, viaString bool) (int, error) {
 					n = 0
 				}
 				c.Accepted = append(c.Accepted, b[:n]...)
-				return n, errWrite
+				return n, f.err()
 			case "full":
 				c.Accepted = append(c.Accepted, b...)
-				return len(b), errWrite
+				return len(b), f.err()
 			}
 		}
 	}
@@ -222,6 +243,29 @@ type SimStringWriter struct{ writerCore }
 func (w *SimStringWriter) Write(b []byte) (int, error)       { return w.write(b, false) }
 func (w *SimStringWriter) WriteString(s string) (int, error) { return w.write([]byte(s), true) }
 
+// SimRichWriter offers WriteString plus the optional methods real destinations have
+// (bufio.Writer, gzip.Writer, os.File): Flush, Sync, Close.  They all succeed and are recorded;
+// a library that lets their result replace an earlier error loses that error.
+type SimRichWriter struct {
+	writerCore
+	Flushes, Syncs, Closes int
+}
+
+func (w *SimRichWriter) Write(b []byte) (int, error)       { return w.write(b, false) }
+func (w *SimRichWriter) WriteString(s string) (int, error) { return w.write([]byte(s), true) }
+func (w *SimRichWriter) Flush() error                      { w.Flushes++; return nil }
+func (w *SimRichWriter) Sync() error                       { w.Syncs++; return nil }
+func (w *SimRichWriter) Close() error                      { w.Closes++; return nil }
+
+// SimPlainFlusher: Write only (adapter path) plus Flush.
+type SimPlainFlusher struct {
+	writerCore
+	Flushes int
+}
+
+func (w *SimPlainFlusher) Write(b []byte) (int, error) { return w.write(b, false) }
+func (w *SimPlainFlusher) Flush() error                { w.Flushes++; return nil }
+
 // SimPlainWriter offers Write only, forcing the library's adapter path.
 type SimPlainWriter struct{ writerCore }
 
@@ -229,6 +273,12 @@ func (w *SimPlainWriter) Write(b []byte) (int, error) { return w.write(b, false)
 
 func newWriter(kind string, f *WFault) (io.Writer, *writerCore) {
 	switch kind {
+	case "rich":
+		w := &SimRichWriter{writerCore: writerCore{fault: f, FailedAt: -1}}
+		return w, &w.writerCore
+	case "plainflush":
+		w := &SimPlainFlusher{writerCore: writerCore{fault: f, FailedAt: -1}}
+		return w, &w.writerCore
 	case "plain":
 		w := &SimPlainWriter{writerCore{fault: f, FailedAt: -1}}
 		return w, &w.writerCore
